@@ -84,6 +84,9 @@ def oracle_dir(runs):
         if r["start"] == "env-failure":
             stats["env_failures"] = stats.get("env_failures", 0) + 1
             continue
+        if r["start"] == "slow-start":
+            stats["slow_starts"] = stats.get("slow_starts", 0) + 1
+            continue
         if r["start"] not in ("ready", "died-at-startup-point"):
             fails.append(dict(name="norestart-d%d-r%d" % (r["dir"], r["run"]), case=dict(ident, start=r["start"], log=(r.get("log") or "")[-3000:],
                                                                                        listing=r.get("listing")),
@@ -293,6 +296,35 @@ def run_harness(ctx, sub, jobs, workers):
     return d, ""
 
 
+def gen_powerloss(seed, engines):
+    """thorough: simulated power loss (tail WAL segment zeroed from its last fdatasync on) — outside C06's crash model,
+    run to show on the real code what C06_powerloss_refuted shows on the model (W1)"""
+    rnd = __import__("random").Random(seed + 13)
+    jobs = []
+    for d in range(18):
+        specs = ["X:%d:0" % rnd.randint(30, 60), "W:%d:%d" % (rnd.randint(5, 50), rnd.randint(0, 7)), "W:%d:%d" % (rnd.randint(5, 50), rnd.randint(0, 7)), "X:3:0"]
+        jobs.append(dict(seed=rnd.randrange(1 << 40), engine=engines[d % len(engines)], optfsync=(d % 2 == 0), ops_max=OPS_MAX, specs=specs))
+    return jobs
+
+
+def evaluate_powerloss(d):
+    """power-loss directories: count, per WAL mode, the restarts after which an acknowledged write was missing"""
+    dirs = load_trace(os.path.join(d, "trace.jsonl"))
+    out = dict(dirs=0, simulated=0, optfsync_acked_lost=0, fsync_acked_lost=0, optfsync_ok=0, fsync_ok=0, other=[])
+    for di, runs in sorted(dirs.items()):
+        out["dirs"] += 1
+        out["simulated"] += sum(1 for r in runs if (r.get("power_loss") or "").startswith("zeroed"))
+        f, st = oracle_dir(runs)
+        key = "optfsync" if runs[0]["optfsync"] else "fsync"
+        if not f:
+            out[key + "_ok"] += 1
+        elif f[0]["name"].startswith("state-"):
+            out[key + "_acked_lost"] += 1
+        else:
+            out["other"].append(dict(dir=di, what=f[0]["what"][:160], start=f[0]["case"].get("start")))
+    return out
+
+
 def evaluate(d, jobs):
     """oracle + bookkeeping over one harness output directory"""
     dirs = load_trace(os.path.join(d, "trace.jsonl"))
@@ -368,7 +400,7 @@ def run(ctx):
         if quick:
             batches.append(("fresh", gen_jobs(ctx.seed, 8, 4, ["pebble", "pebble", "mem", "rocksdb"], known)))
         else:
-            batches.append(("fresh", gen_jobs(ctx.seed, 96, 9, engines, known)))
+            batches.append(("fresh", gen_jobs(ctx.seed, 160, 9, engines, known)))
             batches.append(("systematic", gen_systematic(ctx.seed, engines, known, [1, 2, 3, 5, 8, 13, 21, 34, 55, 69])))
 
     all_fail, all_mism, stats_all, hist_all, samples = [], [], {}, {}, []
@@ -411,6 +443,13 @@ def run(ctx):
                 # non-trivial: a life that was verified after a crash and had writes in flight or acknowledged
                 if r["start"] == "ready" and (r.get("ops") or r["run"] > 0):
                     distinct.add(vlib.case_hash(json.dumps([r["engine"], r["spec"], [o["cmd"] for o in (r.get("ops") or [])], r["death"]])))
+    powerloss = None
+    if not quick and not ctx.replay:
+        pj = gen_powerloss(ctx.seed, engines)
+        dpl, err = run_harness(ctx, "powerloss", pj, workers)
+        if dpl is not None:
+            powerloss = evaluate_powerloss(dpl)
+            ctx.notes.append("simulated power loss (outside C06's crash model; W1): %s" % json.dumps(powerloss))
     if unknown_pts or missing_pts:
         all_mism.append(("points", "source: " + ",".join(unknown_pts), "harness/model: " + ",".join(missing_pts), None))
     if inconclusive:
@@ -449,6 +488,7 @@ def run(ctx):
         histogram=hist_all,
         crash_point_events_accepted=events_total,
         crash_points_in_source=len(src_pts),
+        powerloss_simulation=powerloss,
         mismatches=len(all_mism),
         samples=samples[:5],
     ), assumptions=[
